@@ -44,12 +44,9 @@ Definition decide (magic : list Z) : decision :=
       | Err KeyErr => DErr ImportErr
       | Err e => DErr e
       | Ok tuple_version =>
-          if zmem magic_int interim_rejected then
-            (* message formats versions[magic] *)
-            if versions_has magic' then DErr ImportErr else DErr KeyErr
+          if zmem magic_int interim_rejected then DErr ImportErr
           else if zmem magic_int dropbox_fix_magic then DDropbox
-          else if zmem magic_int other_rejected then
-            if versions_has magic' then DErr ImportErr else DErr KeyErr
+          else if zmem magic_int other_rejected then DErr ImportErr
           else
             match magic2int magic' with
             | None => DErr ImportErr
